@@ -157,6 +157,10 @@ impl Ctx {
                 let same_msg = nmsg == smsg;
                 let class = if !same_msg && mode_answer == "yaml" && m.is_some() && strip_numbers(&nmsg) == strip_numbers(&smsg) {
                     "yaml_positions_only"
+                } else if nr == "err" && sr == "err" && same_msg && m.is_some() && nout != sout && sout.starts_with(&nout) {
+                    // both runs fail with the same text; the run that started with detection had buffered the whole
+                    // (short) input and went down the slice path, which had written less when it failed
+                    "buffered_detection_partial_output"
                 } else {
                     ""
                 };
@@ -349,6 +353,22 @@ pub fn record(out_path: &str, count: u64) {
     // TOML documents around the 1 MiB mark and just below the 2 MiB look-ahead of reader detection
     for size in [1_048_575usize, 1_048_576, 1_500_000, 2_097_151, 2_097_152, 3_000_000] {
         cx.big_toml(size);
+    }
+    // small-scope exhaustive part: every short token sequence TLC enumerated, in every format's alphabet
+    if let Ok(path) = std::env::var("XT_TOKS") {
+        let text = std::fs::read_to_string(path).expect("token file");
+        let mut rng = Rng::derive(seed, "detect-tokens", 0);
+        for line in text.lines() {
+            let Ok(idx) = serde_json::from_str::<Vec<usize>>(line) else { continue };
+            for fmt in ["json", "yaml", "toml", "msgpack"] {
+                let alpha = crate::total::alphabet(fmt);
+                let mut bytes = vec![];
+                for i in &idx {
+                    bytes.extend_from_slice(alpha[(i - 1) % alpha.len()]);
+                }
+                cx.input(bytes, &format!("tokens/{fmt}"), &mut rng, None);
+            }
+        }
     }
     for i in 0..count {
         let mut rng = Rng::derive(seed, "detect", i);
